@@ -166,6 +166,20 @@ def extract(repo):
     if not re.fullmatch(r"[\s\d()+*index]+", gexpr):
         raise ValueError(f"GenNodeArray::Check: unsupported growth expression {gexpr!r}")
     grow = re.sub(r"\bindex\b", "i", gexpr)
+    # which routines leave the slots at and above _count null (the look-ups by index test the slot, not the count)
+    mcc = open(os.path.join(repo, "src/clstepcore/mgrnodearray.cc")).read()
+
+    def loop_nulls(body, what):
+        ml = re.search(r"for\s*\(\s*i\s*=\s*0\s*;\s*i\s*<\s*_count\s*;\s*i\+\+\s*\)\s*\{(.*?)\}\s*_count\s*=\s*0\s*;", body, re.S)
+        if not ml:
+            raise ValueError(f"{what}: `for( i = 0; i < _count; i++ ) {{...}} _count = 0;` not found")
+        return bool(re.search(r"_buf\s*\[\s*i\s*\]\s*=\s*0\s*;", ml.group(1)))
+    del_nulls = loop_nulls(_body(mcc, "MgrNodeArray::DeleteEntries()"), "MgrNodeArray::DeleteEntries")
+    clr_nulls = loop_nulls(_body(mcc, "MgrNodeArray::ClearEntries()"), "MgrNodeArray::ClearEntries")
+    rb = _body(gcc, "GenNodeArray::Remove(")
+    if not re.search(r"--_count\s*;.*memmove\s*\(\s*spot\s*,\s*spot\s*\+\s*1\s*,\s*\(\s*_count\s*-\s*index\s*\)", rb, re.S):
+        raise ValueError("GenNodeArray::Remove: `--_count; ... memmove( spot, spot + 1, ( _count - index ) ...` not found")
+    rem_nulls = bool(re.search(r"_buf\s*\[\s*_count\s*\]\s*=\s*0\s*;", rb))
     m = re.search(r"#define\s+ARRAY_DEFAULT_SIZE\s*\(?\s*(\d+)", ga)
     if not m:
         raise ValueError("ARRAY_DEFAULT_SIZE not found")
@@ -196,6 +210,12 @@ def unassignedFileId : Int := {unassigned}
 def arrayDefaultSize : Nat := {dflt}
 /-- `GenNodeArray::Check`: the new `_bufsize` when `index >= _bufsize` -/
 def growTo (i : Nat) : Nat := {grow}
+/-- `MgrNodeArray::DeleteEntries` stores 0 in every slot whose node it deletes -/
+def deleteEntriesNullsSlots : Bool := {str(del_nulls).lower()}
+/-- `MgrNodeArray::ClearEntries` stores 0 in every slot below `_count` -/
+def clearEntriesNullsSlots : Bool := {str(clr_nulls).lower()}
+/-- `GenNodeArray::Remove` stores 0 in the vacated slot `_buf[_count]` -/
+def removeNullsVacated : Bool := {str(rem_nulls).lower()}
 
 end StepModel.Generated
 """
